@@ -636,6 +636,13 @@ func (r *Resolver) groupLookup(ctx context.Context, rs *resolveState, req *dns.M
 			// reference and can mutate the ID in place.
 			if shared {
 				resp = resp.Copy()
+				// The shared message echoes the leader's question, spelled
+				// the leader's way. The key only equates names up to letter
+				// case, and a follower's client must get its own spelling
+				// back (0x20-validating clients drop anything else).
+				if len(req.Question) == 1 && len(resp.Question) == 1 {
+					resp.Question[0] = req.Question[0]
+				}
 			}
 			resp.Id = req.Id
 		}
